@@ -231,6 +231,7 @@ theorem st_step (s : Sess) (e : Ev) (he : LinkEvK e) (h : s.st.sessionTime = tru
     · rw [(fr_sendQueued _).st]; exact h1
     · exact h1
   | sessionTime r sm => exact he.elim
+  | resetTime now => exact he.elim
 
 theorem lstep_cfg (l : LSt) (e : LEv) : (lstep l e).1.a.cfg = l.a.cfg ∧ (lstep l e).1.b.cfg = l.b.cfg := by
   cases e with
